@@ -248,8 +248,9 @@ class Contract:
     def __init__(self, func, params, requires=(), ensures=None, exc_ensures=None,
                  raises=None, raises_any=False, invariants=None, uses=(), returns=None,
                  effects=None, concretize=None, native=None, pre_hook=None, post_hook=None,
-                 notes='', propagate_opaque=True, max_paths=None, exit_hook=None, variant=None, cuts=None, call_hook=None, lazy_len=False, model_not_callable=False, numeric_split=False, noreturn=False):
+                 notes='', propagate_opaque=True, max_paths=None, exit_hook=None, variant=None, cuts=None, call_hook=None, lazy_len=False, model_not_callable=False, numeric_split=False, noreturn=False, measure=None):
         self.func = func
+        self.measure = measure        # termination measure of a recursive function: int expression over the parameters
         self.params = params
         self.requires = list(requires)
         self.ensures = dict(ensures or {})
@@ -397,6 +398,7 @@ def verify(E, c, verbose=False):
             if not E.feasible(z3.BoolVal(True)):
                 raise PathAbort()
             entry = dict(env.locals)
+            E.entry_measure = E.as_z3_int(E.eval_spec(c.measure, env, E.ghost_env(env))) if c.measure else None
             spec_env = Env(fn.mod, closure=None, fn=fn)
             spec_env.locals.update(entry)
             old = _collect_old(E, list(ens_nodes.values()) + list(exc_nodes.values()), spec_env)
@@ -602,6 +604,12 @@ def _undeclared_params_defaulted(E, c, fn, env, site):
 
 def _apply_contract(E, c, fn, args, kwargs, node, env, site):
     _undeclared_params_defaulted(E, c, fn, env, site)
+    cur = E.cur_contract
+    if cur is not None and cur.measure and c.func == cur.func and getattr(E, 'entry_measure', None) is not None:
+        # recursive call: the termination measure is non-negative at entry and strictly smaller for the callee
+        m1 = E.as_z3_int(E.eval_spec(cur.measure, env))
+        E.oblige('%s::recursion.decreases' % cur.key, z3.And(E.entry_measure >= 0, m1 < E.entry_measure), 'termination',
+                 'recursive call: %s decreases' % cur.measure)
     for i, r in enumerate(c.requires):
         v = E.eval_spec(r, env)
         E.oblige('%s.requires%d' % (site, i), E.as_z3_bool(v), 'call_pre', r)
